@@ -71,102 +71,103 @@ def _path(clf, X, y=None, alpha_multiplier=1.05, min_features=2, keep_threshold=
     initial_alpha = clf.alpha
     clf.set_params(alpha=0)
 
-    if clf.verbose:
-        print("Starting initial training with alpha = 0")
-    clf.fit(X, y)
+    try:
+        if clf.verbose:
+            print("Starting initial training with alpha = 0")
+        clf.fit(X, y)
 
-    generator = check_random_state(clf.random_state)
-    if clf.batch_size is not None:
-        batch_size = clf.batch_size
-    else:
-        batch_size = len(X)
+        generator = check_random_state(clf.random_state)
+        if clf.batch_size is not None:
+            batch_size = clf.batch_size
+        else:
+            batch_size = len(X)
 
-    gemini_objective = clf.get_gemini()
-    best_gemini_score, _ = compute_val_score(clf, X, y, batch_size, gemini_objective)  # Best gemini score only when using all features
-    weights = clf._get_weights()
-    best_weights = [w.copy() for w in weights]
-
-    if clf.verbose:
-        print(f"Finished initial training. GEMINI = {best_gemini_score}")
-
-    affinity = gemini_objective.compute_affinity(X, y)
-
-    alphas = []
-    n_features = []
-    geminis = []
-    group_lasso_penalties = []
-
-    # Re-initialise the optimiser to SGD with 0.9 momentum (default option), to follow the torch version
-    # nesterov acceleration is set to True by default
-    clf.optimiser_ = SGDOptimizer(weights, clf.learning_rate)
-
-    while clf._n_selected_features() > min_features:
-        clf.alpha = alpha
-
-        # Compute the validation scores at the beginning of this step of the path
-        validation_gemini_score, validation_l1 = compute_val_score(clf, X, y, batch_size, gemini_objective)
+        gemini_objective = clf.get_gemini()
+        best_gemini_score, _ = compute_val_score(clf, X, y, batch_size, gemini_objective)  # Best gemini score only when using all features
+        weights = clf._get_weights()
+        best_weights = [w.copy() for w in weights]
 
         if clf.verbose:
-            print(f"Starting new iteration with: alpha = {clf.alpha}. Validation score is {validation_gemini_score}")
+            print(f"Finished initial training. GEMINI = {best_gemini_score}")
 
-        if clf.dynamic and y is None:
-            selection_mask = clf.get_selection()
-            partial_data = X[:, selection_mask]
-            affinity = gemini_objective.compute_affinity(partial_data)
+        affinity = gemini_objective.compute_affinity(X, y)
 
-        patience = 0
-        i = 0
-        while i < clf.max_iter and patience < max_patience:
+        alphas = []
+        n_features = []
+        geminis = []
+        group_lasso_penalties = []
 
-            for X_batch, affinity_batch in clf._batchify(X, affinity, generator):
-                y_pred = clf._infer(X_batch)
-                _, grads = gemini_objective(y_pred, affinity_batch, return_grad=True)
-                grads = clf._compute_grads(X_batch, y_pred, grads)
-                clf._update_weights(weights, grads)
+        # Re-initialise the optimiser to SGD with 0.9 momentum (default option), to follow the torch version
+        # nesterov acceleration is set to True by default
+        clf.optimiser_ = SGDOptimizer(weights, clf.learning_rate)
 
-            # Epoch control
-            iteration_gemini_score, iteration_l1 = compute_val_score(clf, X, y, batch_size, gemini_objective)
+        while clf._n_selected_features() > min_features:
+            clf.alpha = alpha
 
-            if iteration_gemini_score > (2 - early_stopping_factor) * validation_gemini_score \
-                    or iteration_l1 < early_stopping_factor * validation_l1:
-                validation_l1 = iteration_l1
-                validation_gemini_score = iteration_gemini_score
-                patience = 0
-            else:
-                patience += 1
+            # Compute the validation scores at the beginning of this step of the path
+            validation_gemini_score, validation_l1 = compute_val_score(clf, X, y, batch_size, gemini_objective)
+
+            if clf.verbose:
+                print(f"Starting new iteration with: alpha = {clf.alpha}. Validation score is {validation_gemini_score}")
+
+            if clf.dynamic and y is None:
+                selection_mask = clf.get_selection()
+                partial_data = X[:, selection_mask]
+                affinity = gemini_objective.compute_affinity(partial_data)
+
+            patience = 0
+            i = 0
+            while i < clf.max_iter and patience < max_patience:
+
+                for X_batch, affinity_batch in clf._batchify(X, affinity, generator):
+                    y_pred = clf._infer(X_batch)
+                    _, grads = gemini_objective(y_pred, affinity_batch, return_grad=True)
+                    grads = clf._compute_grads(X_batch, y_pred, grads)
+                    clf._update_weights(weights, grads)
+
+                # Epoch control
+                iteration_gemini_score, iteration_l1 = compute_val_score(clf, X, y, batch_size, gemini_objective)
+
+                if iteration_gemini_score > (2 - early_stopping_factor) * validation_gemini_score \
+                        or iteration_l1 < early_stopping_factor * validation_l1:
+                    validation_l1 = iteration_l1
+                    validation_gemini_score = iteration_gemini_score
+                    patience = 0
+                else:
+                    patience += 1
+                if np.isnan(iteration_gemini_score):
+                    warnings.warn(f"Unfortunately, the GEMINI converged to nan, making the entire path unsucessful."
+                                  f"Please report this error. Score and gradients are: {iteration_gemini_score}, {grads}")
+                    patience = max_patience
+
+                i += 1
+
             if np.isnan(iteration_gemini_score):
-                warnings.warn(f"Unfortunately, the GEMINI converged to nan, making the entire path unsucessful."
-                              f"Please report this error. Score and gradients are: {iteration_gemini_score}, {grads}")
-                patience = max_patience
+                break
 
-            i += 1
+            alphas.append(alpha)
+            n_features.append(clf._n_selected_features().item())
+            geminis.append(iteration_gemini_score)
+            group_lasso_penalties.append(clf._group_lasso_penalty())
 
-        if np.isnan(iteration_gemini_score):
-            break
-
-        alphas.append(alpha)
-        n_features.append(clf._n_selected_features().item())
-        geminis.append(iteration_gemini_score)
-        group_lasso_penalties.append(clf._group_lasso_penalty())
-
-        if clf.verbose:
-            print(f"Finished after {i} iterations. Current iteration score is {iteration_l1 - iteration_gemini_score}. "
-                  f"\t(GEMINI: {iteration_gemini_score}, L1: {iteration_l1}). Number of features is"
-                  f" {clf._n_selected_features().item()}")
-
-        alpha *= alpha_multiplier
-        if iteration_gemini_score >= best_gemini_score and clf._n_selected_features() == X.shape[1]:
-            best_gemini_score = iteration_gemini_score
             if clf.verbose:
-                print("Best GEMINI score so far using all features, saving it.")
+                print(f"Finished after {i} iterations. Current iteration score is {iteration_l1 - iteration_gemini_score}. "
+                      f"\t(GEMINI: {iteration_gemini_score}, L1: {iteration_l1}). Number of features is"
+                      f" {clf._n_selected_features().item()}")
 
-        if iteration_gemini_score >= keep_threshold * best_gemini_score:
-            best_weights = [w.copy() for w in weights]
-            if clf.verbose:
-                print(f"This is definitely the best score so far within threshold: {iteration_gemini_score}, "
-                      f"{best_gemini_score}")
+            alpha *= alpha_multiplier
+            if iteration_gemini_score >= best_gemini_score and clf._n_selected_features() == X.shape[1]:
+                best_gemini_score = iteration_gemini_score
+                if clf.verbose:
+                    print("Best GEMINI score so far using all features, saving it.")
 
-    # The path must not leave the hyperparameter of the model modified
-    clf.set_params(alpha=initial_alpha)
+            if iteration_gemini_score >= keep_threshold * best_gemini_score:
+                best_weights = [w.copy() for w in weights]
+                if clf.verbose:
+                    print(f"This is definitely the best score so far within threshold: {iteration_gemini_score}, "
+                          f"{best_gemini_score}")
+    finally:
+        # The path must not leave the hyperparameter of the model modified, even when it fails
+        clf.set_params(alpha=initial_alpha)
 
     return best_weights, geminis, group_lasso_penalties, alphas, n_features
